@@ -72,7 +72,10 @@ def run(ctx):
                 continue
             if m.group(4) == "extern":
                 (defd if m.group(3) == "F" else decl).add(m.group(5))
-        hdr_decls[h] = decl - defd
+        # every function with external linkage the header mentions must come from somewhere: those the TU
+        # itself defines strongly are in hdr_defs (nm); the rest - plain declarations, and C99 `inline`
+        # definitions without `static`, which provide no external definition - must come from the library
+        hdr_decls[h] = (decl | defd) - hdr_defs[h]
     # ---- every ordered pair and all together must compile too
     pairs = list(itertools.permutations(headers, 2))
     todo = pairs if not ctx.quick else rng.sample(pairs, 40)
